@@ -238,6 +238,7 @@ fn variable_uses(component: &IRQueryComponent, out: &mut BTreeMap<String, Vec<Ty
             | GreaterThanOrEqual(_, r) | Contains(_, r) | NotContains(_, r) | OneOf(_, r) | NotOneOf(_, r)
             | HasPrefix(_, r) | NotHasPrefix(_, r) | HasSuffix(_, r) | NotHasSuffix(_, r) | HasSubstring(_, r)
             | NotHasSubstring(_, r) | RegexMatches(_, r) | NotRegexMatches(_, r) => Some(r),
+            _ => None,
         }
     }
     let mut push = |a: Option<&Argument>| {
@@ -608,7 +609,7 @@ impl Prop for C12 {
 
     fn generate(&self, tier: Tier, rng: &mut Rng) -> Vec<Case> {
         let mut out = vec![];
-        let mut push = |out: &mut Vec<Case>, vars: &[(String, TyDesc)], m: &BTreeMap<String, FieldValue>, stream: &str, src: &str, file: Option<&str>| {
+        let push = |out: &mut Vec<Case>, vars: &[(String, TyDesc)], m: &BTreeMap<String, FieldValue>, stream: &str, src: &str, file: Option<&str>| {
             let trivial = matches!(stream, "valid" | "empty-map") && vars.is_empty();
             let nv = format!("vars{}", vars.len().min(5));
             let mut tags = vec![src.to_string(), format!("stream:{stream}"), nv];
@@ -788,12 +789,11 @@ impl Prop for C12 {
         let count = |p: &str| evaluated.iter().filter(|e| e.tags.iter().any(|t| t == p)).count();
         let files: BTreeSet<&str> = evaluated
             .iter()
-            .filter(|e| e.tags.iter().any(|t| t == "repo"))
-            .filter_map(|e| e.line.rsplit("(file ").next())
+            .filter_map(|e| e.line.split_once("(file ").map(|x| x.1.trim_end_matches(')')))
             .collect();
         serde_json::json!({
             "repo_query_cases": count("repo"),
-            "repo_queries_compiled": files.len().saturating_sub(1),
+            "repo_queries_compiled": files.len(),
             "synthetic_query_cases": count("synthetic"),
             "infer_type_cases": count("infer"),
             "accepted": count("answer:ok"),
@@ -1003,10 +1003,6 @@ fn check_validate(sink: &FailSink, req: &Request, e: &Evaluated) {
                 sink.fail("single-error-wrapped-or-multiple-unwrapped", format!("{}", flat.len()), vec![line.clone()]);
             }
         }
-    }
-    // an enum that the traversal reaches must have produced the panic handled above
-    if enum_reached {
-        sink.fail("enum-reached-without-panic-check-harness-notion", String::new(), vec![line]);
     }
     let _ = has_enum;
 }
